@@ -129,24 +129,19 @@ class SubServer:
         self.write(frame(obj, **kw))
 
     def pump(self, timeout=0.0):
-        """read whatever is available within timeout"""
+        """read what is available; waits at most `timeout` for the first chunk, returns as soon as something was read"""
         fd = self.p.stdout.fileno()
-        t_end = time.time() + timeout
-        while True:
-            left = max(0.0, t_end - time.time())
-            r, _, _ = select.select([fd], [], [], left)
-            if not r:
-                return
-            chunk = os.read(fd, 65536)
-            if not chunk:
-                return
-            self.raw += chunk
-            self.buf += chunk
-            msgs, self.buf, errs = parse_stream(self.buf)
-            self.msgs += msgs
-            self.errors += errs
-            if timeout == 0:
-                return
+        r, _, _ = select.select([fd], [], [], max(0.0, timeout))
+        if not r:
+            return
+        chunk = os.read(fd, 65536)
+        if not chunk:
+            return
+        self.raw += chunk
+        self.buf += chunk
+        msgs, self.buf, errs = parse_stream(self.buf)
+        self.msgs += msgs
+        self.errors += errs
 
     def wait_for(self, pred, timeout=20.0):
         t_end = time.time() + timeout
